@@ -46,6 +46,39 @@ first exchange, inside one (before its n-th datagram), between two
 exchanges, at the end.  On a tree whose LockFile has no destructor nothing
 is closed.
 
+Several tasks of one process on ONE terminal (cross-process half): three and
+more users of a terminal, two or three of them tasks of the same process that
+share the terminal's Terminal object (and so its lock), next to one or two
+other processes.  Record locks do not keep the tasks of one process apart, so
+the lock has to do that by other means, and must still hold the record lock
+whenever one of its tasks is inside an exchange.  The tasks of the process
+run in ALL orders an event loop can produce (`sched` = 'all', x_tasks_all): a
+task runs from one point where it gives way (waiting for the answer to a
+datagram, or for another task: the future an asyncio.Lock parks its waiters
+on) to the next, and whenever more than one task can go on the explorer
+chooses; all of that interleaved with the operations of the other processes.
+
+Life cycles on the lock file (cross-process half): a participant may take
+part several times (`sessions`), each time with a new LockFile on the same
+name, as entering ParallelEtherCat.run() again does.  Whoever leaves as the
+last one does what run() does then: LockFile.remove(), without closing it.
+The simulated OS models unlink faithfully (the open descriptor keeps the
+unlinked inode and its record locks alive, a new file of that name is another
+inode, record locks are per inode; checked against the real OS by
+simos.conformance, script 'unlink').  Other processes join before, in between
+and afterwards.  Taking part begins with `join` and ends with `leave` (harness
+steps standing for the lock directory of run(), which is C23's subject); a
+participant does not join while the last one is still removing the lock file
+(that race is C23's known finding).  When the last one has removed the lock
+file a new session begins for the oracle: the first mail after it may carry
+any counter again (a new lock file starts at 0).
+
+Library data is owned by the harness: module-level and class-level data of
+ebpfcat.lock is reset to its import-time value before every execution (both
+halves), never inside one, and every simulated process has its own copy (a
+process does not see what another process cached); see mc/simos.py, "Library
+data".
+
 Object lifetime is owned by the harness (see mc/simos.py, "Destructors"):
 the cyclic collector is off while an execution runs, every execution destroys
 what it leaves behind inside its own simulated OS, and a LockFile that
@@ -95,9 +128,18 @@ RULE = ("in-process: multisets of 2-3 task programs (1-2 exchanges each from "
         "refused exchanges x (participants owning a second LockFile object "
         "on the lock file: per-task pickled lock copies that die when the "
         "task completes, or a spare copy dropped at an explorer-chosen "
-        "point before / inside / between / after its exchanges); a state "
-        "is non-trivial when a byte lock is held (or the lock file is still "
-        "empty) while another participant is alive")
+        "point before / inside / between / after its exchanges) x (two or "
+        "three tasks of one process sharing ONE terminal's Terminal object "
+        "next to other processes, the tasks of the process in every order "
+        "an event loop can produce: explorer choice wherever more than one "
+        "task can go on) x (life cycles: participants that take part "
+        "several times, each time with a new LockFile on the same name, the "
+        "last one to leave removes the lock file and keeps its descriptor, "
+        "other processes joining before / in between / afterwards); "
+        "library data of ebpfcat.lock (module and class level) is reset "
+        "before every execution and private to each simulated process; a "
+        "state is non-trivial when a byte lock is held (or the lock file is "
+        "still empty) while another participant is alive")
 
 OUT_OFF, OUT_SZ, IN_OFF, IN_SZ = 0x1000, 48, 0x1100, 48
 KINDS = "rwo"
@@ -797,6 +839,31 @@ class Shared:
         self.by_station = {tm.station: tm for tm in self.terms}
         self.budget = latency + 3
         self.empty_polls = {}
+        # life cycle (spaces with sessions): who takes part right now, who
+        # (the last one that left) is tearing the session down, how many
+        # sessions have ended
+        self.members = set()
+        self.tearing = None
+        self.epochs = 0
+
+    def join(self, pid):
+        self.members.add(pid)
+
+    def leave(self, pid):
+        """-> was it the last one (what the rmdir of the lock directory
+        tells ParallelEtherCat.run)"""
+        self.members.discard(pid)
+        if self.members:
+            return False
+        self.tearing = pid
+        return True
+
+    def torn_down(self, run):
+        self.tearing = None
+        self.epochs += 1
+        for tm in self.terms:
+            tm.events.append(("epoch",))
+            tm.ev_steps.append(run.nsteps)
 
     def access(self, run, pid, cmd, pos, offset, out):
         """one datagram; -> returned data, None = working counter 0"""
@@ -824,7 +891,8 @@ class Shared:
 
     def digest(self):
         return core.digest([[tm.digest() for tm in self.terms],
-                            sorted(self.empty_polls.items())])
+                            sorted(self.empty_polls.items()),
+                            sorted(self.members), self.tearing, self.epochs])
 
 
 class BusQueue:
@@ -879,38 +947,63 @@ def _where(e):
     return out
 
 
+def x_session_tasks(p):
+    """one session of a participant: either the exchanges of its only task
+    on terminal 0 ('rw', ['r', 'w']) or a list of [terminal, exchanges]
+    pairs, one per task -> [(terminal, kinds), ...]"""
+    multi = len(p) > 0 and not isinstance(p, str) \
+        and not isinstance(p[0], str)
+    return [(t, tuple(k)) for t, k in p] if multi else [(0, tuple(p))]
+
+
+def x_sessions(p):
+    """progs[u] is one session (see x_session_tasks) or {'sessions': [...]}:
+    the participant joins, runs the tasks of the session, leaves, and joins
+    again for the next one -> [[(terminal, kinds), ...], ...]"""
+    if isinstance(p, dict):
+        return [x_session_tasks(q) for q in p["sessions"]]
+    return [x_session_tasks(p)]
+
+
 def x_plan(progs):
-    """progs[u] is either the exchanges of a participant with one task on
-    terminal 0 ('rw', ['r', 'w']) or a list of [terminal, exchanges] pairs,
-    one per task.  -> [[(terminal, kinds, user number), ...] per participant]
-    users are numbered in this order"""
+    """-> [[(terminal, kinds, user number), ...] per participant], all
+    sessions of a participant one after the other; users (one per task and
+    session) are numbered in this order"""
     plan, n = [], 0
     for p in progs:
-        multi = len(p) > 0 and not isinstance(p, str) \
-            and not isinstance(p[0], str)
-        tasks = [(t, tuple(k)) for t, k in p] if multi else [(0, tuple(p))]
+        tasks = [tk for ses in x_sessions(p) for tk in ses]
         plan.append([(t, k, n + i) for i, (t, k) in enumerate(tasks)])
         n += len(tasks)
     return plan
 
 
+def x_layout(progs):
+    """-> [[number of tasks of each session] per participant]"""
+    return [[len(ses) for ses in x_sessions(p)] for p in progs]
+
+
 def x_tasks(coros, failed):
-    """the tasks of one process: task i+1 is started when task i waits for
-    its first datagram, and completes before task i goes on (the schedule an
-    event loop produces when the first task's frame is slow)"""
+    """the tasks of one process in ONE order ('nested'): task i+1 is started
+    when task i waits for its first datagram, and completes before task i
+    goes on (the schedule an event loop produces when the first task's frame
+    is slow)"""
     results = [None] * len(coros)
 
     def run(i):
         first = True
         while True:
             try:
-                coros[i].send(None)
+                y = coros[i].send(None)
             except StopIteration as stop:
                 results[i] = ["ok", stop.value]
                 return
             except Exception as e:
                 results[i] = failed(e)
                 return
+            if not isinstance(y, SimFuture):
+                raise simos.SimBug(
+                    f"task {i} waits for {y!r}: tasks that wait for each "
+                    "other need the task schedule 'all'")
             if first and i + 1 < len(coros):
                 run(i + 1)
             first = False
@@ -926,21 +1019,158 @@ def x_tasks(coros, failed):
     return results
 
 
+class TaskLoop:
+    """what asyncio.Lock needs of the event loop of a simulated process: the
+    futures its waiters sleep on.  Nothing is ever scheduled on it: the task
+    scheduler (x_tasks_all) looks at the futures itself"""
+
+    def get_debug(self):
+        return False
+
+    def create_future(self):
+        return asyncio.Future(loop=self)
+
+    def call_soon(self, callback, *args, context=None):
+        raise simos.SimBug("a callback was scheduled on the event loop of a "
+                           f"simulated process: {callback!r}")
+
+    call_soon_threadsafe = call_soon
+
+    def call_exception_handler(self, context):
+        pass
+
+    def is_closed(self):
+        return False
+
+
+class TasksStuck(Exception):
+    """all tasks of a process wait for each other"""
+
+
+def x_tasks_all(rt, coros, failed):
+    """the tasks of one process in ALL orders ('all'): a task runs from one
+    point where it gives way (it waits for the answer to a datagram, or for
+    another task of its process: an asyncio future, e.g. the waiter of an
+    asyncio.Lock) to the next; whenever more than one task can go on - not
+    started yet, datagram answered, future done - the explorer chooses which
+    one does.  An event loop produces every one of these orders for some
+    timing of the frames (a task whose frame is slow goes on later), and no
+    other"""
+    n = len(coros)
+    results = [None] * n
+    waits = [None] * n          # what the task waits for (None: not started)
+    alive = list(range(n))
+    k = 0
+    try:
+        while alive:
+            ready = [i for i in alive if waits[i] is None or waits[i].done()]
+            if not ready:
+                e = TasksStuck("tasks " + ", ".join(map(str, alive)) +
+                               " of the process wait for each other")
+                for i in alive:
+                    results[i] = ["raise", "TasksStuck", "?", str(e)]
+                    coros[i].close()
+                break
+            i = ready[0]
+            if len(ready) > 1:
+                i = rt.choose(f"task@{k}", ready)
+                k += 1
+            w = waits[i]
+            if w is not None and not isinstance(w, SimFuture):
+                w._asyncio_future_blocking = False
+            try:
+                y = coros[i].send(None)
+            except StopIteration as stop:
+                results[i] = ["ok", stop.value]
+                alive.remove(i)
+                continue
+            except Exception as e:
+                results[i] = failed(e)
+                alive.remove(i)
+                continue
+            if not isinstance(y, SimFuture) \
+                    and not getattr(y, "_asyncio_future_blocking", False):
+                raise simos.SimBug(f"task {i} gives way with {y!r}")
+            waits[i] = y
+    except BaseException:       # killed / abandoned: unwind in this context
+        for c in coros:
+            try:
+                c.close()
+            except BaseException:
+                pass
+        raise
+    return results
+
+
 def x_body(rt):
-    """one participant.  Python objects die where their last reference is
-    dropped (simos keeps the cyclic collector off): a task's Terminal and
-    lock are referenced by its coroutine only and die when it completes; a
-    spare LockFile dies at the point the explorer chose; everything else
-    when this function returns, i.e. before the process exits"""
+    """one participant (see x_sessions).  Python objects die where their
+    last reference is dropped (simos keeps the cyclic collector off): a
+    task's Terminal and lock are referenced by the coroutines of its session
+    only and die when the last of them completes; a spare LockFile dies at
+    the point the explorer chose; the LockFile of a session when the next
+    session has made its own (what rebinding `self.mbx_lock_file` in
+    ParallelEtherCat.run does) - the library does not close it, so its
+    descriptor stays open; everything else when this function returns, i.e.
+    before the process exits"""
+    tasks_all = rt.params["sched"][rt.pid()] == "all"
+    if tasks_all:
+        asyncio.events._set_running_loop(TaskLoop())
+    try:
+        return x_participant(rt, tasks_all)
+    finally:
+        if tasks_all:
+            asyncio.events._set_running_loop(None)
+
+
+def x_participant(rt, tasks_all):
     prm = rt.params
-    mine = prm["plan"][rt.pid()]
+    pid = rt.pid()
+    mine = prm["plan"][pid]
     sh = prm["shared"]
-    how = prm["how"][rt.pid()]
-    spare_kind = prm["spare"][rt.pid()]
-    spare, point = [], [None]
 
     def failed(e):
         return ["raise", type(e).__name__, _where(e), str(e)[:80]]
+    try:
+        ec = ecat_mod.ParallelEtherCat(X_IF)
+        ec.terminal_addr_range = X_RANGE
+        queue = ec.send_queue = BusQueue(sh)
+    except Exception as e:
+        return [failed(e)] * len(mine)
+    results, n = [], 0
+    for ses, ntasks in enumerate(prm["layout"][pid]):
+        if prm["gate"]:
+            # taking part begins.  Not while the last one of the session
+            # before is still tearing it down: that race is C23's
+            rt.syscall("join", (), lambda: sh.join(pid),
+                       enabled=lambda: sh.tearing is None)
+        made, r = x_session(rt, ec, queue, mine[n:n + ntasks], ses == 0,
+                            tasks_all, failed)
+        results += r
+        n += ntasks
+        if prm["gate"]:
+            try:
+                if rt.syscall("leave", (), lambda: sh.leave(pid)):
+                    # the last one: ParallelEtherCat.run removes the lock
+                    # file (and does not close it)
+                    try:
+                        if made:
+                            ec.mbx_lock_file.remove()
+                    finally:
+                        rt.syscall("torn-down", (),
+                                   lambda: sh.torn_down(rt))
+            except Exception as e:
+                results.append(failed(e))
+    return results
+
+
+def x_session(rt, ec, queue, mine, first, tasks_all, failed):
+    """-> (was the LockFile made, [result per task])"""
+    prm = rt.params
+    sh = prm["shared"]
+    how = prm["how"][rt.pid()]
+    spare_kind = prm["spare"][rt.pid()] if first else None
+    spare, point = [], [None]
+    made = False
 
     def drop():
         del spare[:]
@@ -950,9 +1180,6 @@ def x_body(rt):
             drop()
     coros = []
     try:
-        ec = ecat_mod.ParallelEtherCat(X_IF)
-        ec.terminal_addr_range = X_RANGE
-        queue = ec.send_queue = BusQueue(sh)
         if how == "unpickle":
             # a spawned child receives the pickled LockFile: __setstate__
             ec.mbx_lock_file = pickle.loads(prm["blob"])
@@ -960,20 +1187,28 @@ def x_body(rt):
             # the statement in ParallelEtherCat.run that creates it
             ec.mbx_lock_file = lock_mod.LockFile(
                 f'/run/ebpf/{ec.addr[0]}', *ec.terminal_addr_range)
+        made = True
+        terms = {}
         for t, kinds, user in mine:
-            term = Terminal(ec)
-            term.position = sh.terms[t].station
-            # as Terminal.initialize / gentle_initialize do
-            term.mbx_lock = ec.get_mbx_lock(term.position)
-            if how == "messages":
-                # every task got its lock in a pickled message of its own
-                # (what LockFile is picklable for): each copy opens the
-                # lock file anew
-                term.mbx_lock = pickle.loads(pickle.dumps(term.mbx_lock))
-            term.mbx_out_off, term.mbx_out_sz = OUT_OFF, OUT_SZ
-            term.mbx_in_off, term.mbx_in_sz = IN_OFF, IN_SZ
+            term = terms.get(t)
+            if term is None:
+                term = Terminal(ec)
+                term.position = sh.terms[t].station
+                # as Terminal.initialize / gentle_initialize do
+                term.mbx_lock = ec.get_mbx_lock(term.position)
+                if how == "messages":
+                    # every task got its lock in a pickled message of its
+                    # own (what LockFile is picklable for): each copy opens
+                    # the lock file anew
+                    term.mbx_lock = pickle.loads(pickle.dumps(term.mbx_lock))
+                else:
+                    # the tasks of a process that talk to one terminal share
+                    # its Terminal object
+                    terms[t] = term
+                term.mbx_out_off, term.mbx_out_sz = OUT_OFF, OUT_SZ
+                term.mbx_in_off, term.mbx_in_sz = IN_OFF, IN_SZ
             coros.append(program(term, user, kinds, pause))
-        del term
+        del term, terms
         if spare_kind:
             # a second LockFile object of this process on the same file, made
             # the ways the library allows, and dropped at one of the points
@@ -992,19 +1227,21 @@ def x_body(rt):
             if point[0] == ["pre"]:
                 drop()
             elif point[0][0] == "dg":
-                queue.at, queue.drop = point[0][1], drop
+                queue.at, queue.drop = queue.count + point[0][1], drop
     except BaseException as e:
         for c in coros:         # not started: nothing to unwind
             c.close()
         if not isinstance(e, Exception):
             raise               # killed / abandoned
-        return [failed(e)] * len(mine)
-    if len(coros) == 1:
+        return made, [failed(e)] * len(mine)
+    if len(coros) == 1 and rt.pid() not in prm["yielding"]:
         try:
-            return [["ok", simos.drive(coros[0])]]
+            return made, [["ok", simos.drive(coros[0])]]
         except Exception as e:
-            return [failed(e)]
-    return x_tasks(coros, failed)
+            return made, [failed(e)]
+    if tasks_all:
+        return made, x_tasks_all(rt, coros, failed)
+    return made, x_tasks(coros, failed)
 
 
 def _good(ev):
@@ -1090,7 +1327,9 @@ def x_monitor(run):
         pass
     if node is not None:
         own = {tm.station - X_RANGE[0] for tm in sh.terms}
-        init = prm["content"] or bytes(X_RANGE[1] - X_RANGE[0])
+        init = bytes(X_RANGE[1] - X_RANGE[0])
+        if not sh.epochs:       # still the file the space began with
+            init = prm["content"] or init
         bad = [i for i, b in enumerate(node.data)
                if i not in own and (i >= len(init) or b != init[i])]
         if bad:
@@ -1154,8 +1393,8 @@ def x_describe(run):
 
 
 def x_space(name, progs, how, initial, latency, preempt, crashes, seed,
-            cap=None, spare=None, drops=None):
-    """progs[u]: exchanges of participant u (see x_plan); how[u]: 'init' |
+            cap=None, spare=None, drops=None, sched=None):
+    """progs[u]: exchanges of participant u (see x_sessions); how[u]: 'init' |
     'unpickle' | 'messages' (created as 'init', but every task's lock is a
     pickled copy with a LockFile of its own); initial: None (no lock file
     yet) or the counter an earlier session left in the file; latency: polls
@@ -1164,18 +1403,39 @@ def x_space(name, progs, how, initial, latency, preempt, crashes, seed,
     at which it may drop it (one is chosen by the explorer): ['pre'] before
     its first exchange, ['dg', n] inside an exchange, before its n-th
     datagram, ['after', j] between exchange j and j + 1, ['end'] when it is
-    done"""
+    done; sched[u]: how the tasks of participant u are interleaved with each
+    other: 'nested' (one order, see x_tasks) or 'all' (see x_tasks_all)"""
     size = X_RANGE[1] - X_RANGE[0]
     plan = x_plan(progs)
+    layout = x_layout(progs)
     n_users = sum(len(m) for m in plan)
     n_terms = 1 + max(t for m in plan for t, _, _ in m)
     stations = [X_RANGE[0] + (5 + seed + 3 * k) % size
                 for k in range(n_terms)]
     station = stations[0]
-    if crashes and n_users != len(plan):
+    gate = any(len(l) > 1 for l in layout)
+    sched = [c or "nested" for c in sched or [None] * len(plan)]
+    spare = list(spare) if spare else [None] * len(plan)
+    if crashes and (n_users != len(plan) or gate):
         raise core.Internal("crash spaces need one task per participant")
-    progs = [[[t, "".join(k)] for t, k, _ in m] if len(m) > 1
-             or m[0][0] else list(m[0][1]) for m in plan]
+    if gate and any(spare):
+        raise core.Internal("spare LockFile objects and sessions are not "
+                            "combined")
+
+    def norm(ses):
+        return [[t, "".join(k)] for t, k in ses] if len(ses) > 1 \
+            or ses[0][0] else list(ses[0][1])
+    for u, p in enumerate(progs):
+        for ses in x_sessions(p):
+            if len({t for t, _ in ses}) < len(ses) and (
+                    sched[u] != "all" or how[u] == "messages"):
+                raise core.Internal(
+                    "two tasks of a process on one terminal share its "
+                    "Terminal object and wait for each other: schedule "
+                    "'all', not 'messages'")
+    progs = [dict(sessions=[norm(ses) for ses in x_sessions(p)])
+             if len(x_sessions(p)) > 1 else norm(x_sessions(p)[0])
+             for p in progs]
     content = None
     if initial is not None:
         content = bytearray((i + seed) % 7 + 1
@@ -1183,13 +1443,14 @@ def x_space(name, progs, how, initial, latency, preempt, crashes, seed,
         for st in stations:
             content[st - X_RANGE[0]] = initial
         content = bytes(content)
-    spare = list(spare) if spare else [None] * len(plan)
     drops = [list(d) for d in drops or [["end"]]]
     params = dict(progs=progs, how=list(how), initial=initial,
                   latency=latency, preempt=preempt, crashes=crashes,
                   seed=seed, station=station, stations=stations)
     if any(spare):
         params.update(spare=spare, drops=drops)
+    if "all" in sched:
+        params.update(sched=sched)
     lf = lock_mod.LockFile.__new__(lock_mod.LockFile)
     lf.filename, lf.minimum, lf.maximum = X_LOCKFILE, *X_RANGE
     blob = pickle.dumps(lf)
@@ -1203,11 +1464,12 @@ def x_space(name, progs, how, initial, latency, preempt, crashes, seed,
             w.exit_process(9)
         sh = Shared(n_users, stations, latency)
         return XRun(w, [x_body] * len(plan),
-                    params=dict(shared=sh, plan=plan, how=list(how),
+                    params=dict(shared=sh, plan=plan, layout=layout,
+                                gate=gate, sched=sched, how=list(how),
                                 blob=blob, content=content, spare=spare,
                                 drops=drops,
-                                yielding={u for u, m in enumerate(plan)
-                                          if len(m) > 1}))
+                                yielding={u for u, l in enumerate(layout)
+                                          if max(l) > 1}))
     return simos.Space(name, factory, x_monitor, preempt=preempt,
                        crashes=crashes, params=params, describe=x_describe,
                        state_cap=cap)
@@ -1216,12 +1478,13 @@ def x_space(name, progs, how, initial, latency, preempt, crashes, seed,
 def x_space_from_params(name, p):
     return x_space(name, p["progs"], p["how"], p["initial"], p["latency"],
                    p["preempt"], p["crashes"], p["seed"],
-                   spare=p.get("spare"), drops=p.get("drops"))
+                   spare=p.get("spare"), drops=p.get("drops"),
+                   sched=p.get("sched"))
 
 
 def x_spaces(ctx):
     s = ctx.seed
-    I, U, M = "init", "unpickle", "messages"
+    I, U, M, A = "init", "unpickle", "messages", "all"
     inside = [["dg", 0], ["dg", 2], ["dg", 4]]
     if ctx.quick:
         sp = [x_space("x2-fresh-1ex", ["r", "w"], [I, I], None, 0, None, 0,
@@ -1242,7 +1505,17 @@ def x_spaces(ctx):
               # the terminal refuses exchanges; others follow
               x_space("x2-refused", ["Rr", "w"], [I, U], 7, 0, None, 0, s),
               x_space("x2-refused-both", ["V", "O"], [I, I], 5, 0, None, 0,
-                      s)]
+                      s),
+              # THREE users of one terminal: two tasks of process 0 (they
+              # share its Terminal object, in every order an event loop can
+              # produce) and process 1
+              x_space("x2-same-terminal", [[[0, "r"], [0, "w"]], "o"],
+                      [I, U], 6, 0, None, 0, s, sched=[A, None]),
+              # life cycle: process 0 takes part twice; whoever leaves as
+              # the last one removes the lock file (and keeps its
+              # descriptor); process 1 takes part once, at any time
+              x_space("x2-rejoin", [dict(sessions=["r", "w"]), "o"], [I, I],
+                      6, 0, None, 0, s)]
     else:
         sp = [x_space("x2-fresh-2ex", ["rw", "or"], [I, I], None, 1, None,
                       0, s),
@@ -1290,7 +1563,42 @@ def x_spaces(ctx):
               x_space("x3-refused", ["R", "w", "O"], [I, I, U], 7, 0, None,
                       0, s),
               x_space("x2-refused-crash1", ["Rr", "V"], [I, I], 5, 0, None,
-                      1, s)]
+                      1, s),
+              # several tasks of one process on ONE terminal, all orders
+              x_space("x2-same-terminal-2ex",
+                      [[[0, "rw"], [0, "o"]], "wr"], [I, I], None, 1, None,
+                      0, s, sched=[A, None]),
+              x_space("x2-same-terminal-both",
+                      [[[0, "r"], [0, "o"]], [[0, "w"], [0, "r"]]], [U, I],
+                      7, 0, None, 0, s, sched=[A, A]),
+              x_space("x2-same-terminal-3tasks",
+                      [[[0, "w"], [0, "r"], [0, "o"]], "r"], [I, U], 5, 0,
+                      None, 0, s, sched=[A, None]),
+              x_space("x3-same-terminal",
+                      [[[0, "r"], [0, "w"]], "o", "r"], [I, U, I], 7, 0,
+                      None, 0, s, sched=[A, None, None]),
+              x_space("x2-two-terminals-all-orders",
+                      [[[1, "r"], [0, "w"]], [[1, "o"]]], [I, I], 6, 0, None,
+                      0, s, sched=[A, None]),
+              x_space("x2-same-terminal-refused",
+                      [[[0, "R"], [0, "w"]], "Or"], [I, I], 6, 0, None, 0,
+                      s, sched=[A, None]),
+              # life cycles on the lock file
+              x_space("x2-rejoin-both",
+                      [dict(sessions=["r", "w"]), dict(sessions=["o", "r"])],
+                      [I, U], 6, 0, None, 0, s),
+              x_space("x2-rejoin-2ex",
+                      [dict(sessions=["rw", "o"]), "wr"], [U, I], None, 1,
+                      None, 0, s),
+              x_space("x2-rejoin-thrice",
+                      [dict(sessions=["r", "w", "o"]), "w"], [I, I], None, 0,
+                      None, 0, s),
+              x_space("x3-rejoin",
+                      [dict(sessions=["r", "w"]), "o", "w"], [I, I, U], None,
+                      0, None, 0, s),
+              x_space("x2-rejoin-same-terminal",
+                      [dict(sessions=[[[0, "r"], [0, "w"]], "o"]), "r"],
+                      [I, I], None, 0, None, 0, s, sched=[A, None])]
     only = os.environ.get("C15_SPACES")       # development aid
     if only:
         sp = [x for x in sp if x.name in only.split(",")]
@@ -1320,6 +1628,12 @@ def run_cross(ctx, res):
     if diffs:
         raise core.Internal("simos does not conform to the real OS: "
                             + "; ".join(diffs[:5]))
+    bad = simos.selftest_library_state()
+    if bad:
+        raise core.Internal("simos does not own the library's module / class "
+                            "data: " + "; ".join(bad[:3]))
+    if "ebpfcat.lock" not in simos.owned_library_modules():
+        raise core.Internal("ebpfcat.lock is not registered with simos")
     x_install()
     try:
         per = {}
@@ -1342,8 +1656,10 @@ def run_cross(ctx, res):
         res.cov["crossprocess_bound_completed"] = {
             sp.name: dict(
                 participants=len(sp.params["progs"]),
-                exchanges=[p if p and isinstance(p[0], list) else "".join(p)
+                exchanges=[p if isinstance(p, dict)
+                           or p and isinstance(p[0], list) else "".join(p)
                            for p in sp.params["progs"]],
+                tasks_of_a_process_interleaved=sp.params.get("sched"),
                 terminals=len(sp.params["stations"]),
                 lock_file=("created by the participants"
                            if sp.params["initial"] is None else
@@ -1356,6 +1672,7 @@ def run_cross(ctx, res):
                 crashes=sp.crashes, completed=per[sp.name]["complete"])
             for sp in x_spaces(ctx)}
         res.cov["simos_conformance"] = "passed"
+        res.cov["library_data_owned"] = simos.owned_library_modules()
     finally:
         x_uninstall()
     return tot
@@ -1448,6 +1765,41 @@ def run(ctx):
         "must keep their value (they are other terminals' counters)",
         "not covered here: the last leaver's LockFile.remove() racing with a "
         "new session (the dispatcher race of C23)",
+        "life cycles (spaces with sessions): a participant takes part "
+        "several times in the same process; each time it makes a new "
+        "LockFile on the same name (directly or by unpickling) and new "
+        "Terminal / lock objects, the LockFile of the time before is dropped "
+        "when the new one is bound (as `self.mbx_lock_file = LockFile(...)` "
+        "in ParallelEtherCat.run does) and is not closed by anybody.  "
+        "Taking part begins with a harness step `join` and ends with "
+        "`leave`, which tells the participant whether it was the last one "
+        "(what the rmdir of the lock directory tells run()); the last one "
+        "calls LockFile.remove() and does not close it.  Nobody joins while "
+        "the last one is between `leave` and the end of remove() (the race "
+        "of a new session with the tear-down of the old one is the known "
+        "finding C23-last-leaver-race).  A participant that joins before "
+        "the last one leaves keeps the session alive: nothing is removed",
+        "life cycles, oracle: once everybody has left and the last one has "
+        "removed the lock file, a new session begins: its first mail may "
+        "carry any counter (a new lock file starts at 0), from there on the "
+        "successor relation holds again; exclusion is judged over the whole "
+        "execution; bytes of other terminals must be 0 in a lock file made "
+        "after a removal",
+        "simulated unlink: an open descriptor keeps the unlinked inode "
+        "(content and record locks) alive, a new file of the same name is "
+        "another inode, record locks are per (process, inode); checked "
+        "against the real OS (simos.conformance, script 'unlink')",
+        "library data: module-level and class-level data of ebpfcat.lock "
+        "(dict / list / set / bytearray / deque restored in place, numbers / "
+        "strings / tuples / None rebound, other deep-copyable non-callable "
+        "objects rebound to a copy, attributes that did not exist at import "
+        "removed; names rebound by the harness's seams excepted) is reset to "
+        "its import-time value before every execution of either half - "
+        "never inside one - and every simulated process owns a private copy "
+        "that starts from the import-time value (a process that was started "
+        "on its own, or spawned; a forked child inheriting used library "
+        "data is not modelled).  Data kept elsewhere (closures, "
+        "function attributes, other modules) is not owned",
         "the first mail the terminal sees may carry any counter; every "
         "later one must carry the successor in the cycle 1..7",
         "an exchange is open from the request until its response has been "
@@ -1461,11 +1813,28 @@ def run(ctx):
         "cancelled task was inside the lock (its request may be on the wire "
         "or its response outstanding, which no later user can know) the "
         "execution is counted as outside_precondition and not judged",
-        "cross-process, several terminals: a participant with two tasks "
+        "cross-process, several terminals, task schedule 'nested': a "
+        "participant with two tasks "
         "runs them in one fixed order an event loop can produce (task 2 "
         "starts when task 1 waits for its first datagram, i.e. after it "
         "took its lock, and completes before task 1 goes on); all "
         "interleavings with the other processes are explored",
+        "cross-process, task schedule 'all' (every space in which two tasks "
+        "of a process use the same terminal): the tasks of a process that "
+        "talk to one terminal share its Terminal object and its mbx_lock "
+        "(as tasks of one program do; two Terminal objects for one terminal "
+        "in one process are not claimed to exclude each other).  A task "
+        "runs without giving way between two awaits that really suspend: "
+        "waiting for a datagram's answer, waiting for a future (asyncio.Lock "
+        "waiters; the futures are real asyncio futures on a loop object "
+        "that never schedules anything).  Whenever more than one task can "
+        "go on (not started, answer there, future done) the explorer "
+        "chooses which; a datagram's answer is there at once, so 'the frame "
+        "of this task is slower than everything the other tasks do' is one "
+        "of the orders.  A task that spins on a byte lock held by another "
+        "process (await sleep(0)) keeps its whole process waiting until the "
+        "lock is free.  If all tasks of a process wait for each other the "
+        "participant fails (TasksStuck) and is reported",
         "3 tasks: bound reduced by one in thorough; quick: 3 tasks do one "
         "exchange each",
         "refused exchanges (R N V W O, see the module docstring): the CoE "
